@@ -12,6 +12,7 @@ import IdpyVerif.Driver.Claims
 import IdpyVerif.Driver.Resolve
 import IdpyVerif.Driver.FileStore
 import IdpyVerif.Driver.IdToken
+import IdpyVerif.Driver.RPState
 open Idpy
 
 structure DState where
@@ -21,6 +22,7 @@ structure DState where
   jar : Driver.Jar.DS := {}
   reg : Registration.St := {}
   fs : Driver.FileStore.DS := {}
+  rps : RPState.Handler := []
 
 def dispatch (st : DState) (fields : List String) : DState × String :=
   match fields with
@@ -32,6 +34,9 @@ def dispatch (st : DState) (fields : List String) : DState × String :=
   | "redir" :: args => (st, (Driver.Redirect.handle args).getD "bad-op")
   | "msg" :: args => (st, (Driver.Msg.handle args).getD "bad-op")
   | "cookie" :: args => (st, (Driver.C17.handle args).getD "bad-op")
+  | "rps" :: args =>
+    let (h', out) := Driver.RPState.stepLine st.rps args
+    ({ st with rps := h' }, out)
   | "idt" :: args => (st, (Driver.IdToken.handle args).getD "bad-op")
   | "ie" :: args => (st, (Driver.FileStore.ieLine args).getD "bad-op")
   | "fs" :: args =>
